@@ -57,6 +57,11 @@ CHECKS = {
             "Histories of raw edges, Assembly steps, key interrupts, continue, CPU reset and input changes run on two copies: the machine under test through Machine::trigger_key_clock with step-mode switches, and a twin that only ever receives single edges, an Assembly step being replaced by reference stepping written from the statement. After every operation both RawMachines must be equal; from clean boundaries the step is also compared with the instruction-level model (exactly one instruction). Steps are issued from every phase (mid-instruction, wait pending, interrupt pending, halted). Termination: for every opcode byte at PC in three phases; where the reference proves a fixed point (no boundary can ever come) the step runs on a helper thread and not returning within 10 s is a violation.",
             "Trusted: ref_step in harness/src/props/c11.rs. Helper-thread guarding is budgeted (first 4000 termination-critical steps per run, which includes all enumerated ones); beyond that a hang ends in the watchdog (exit 2).",
             "DESIGN.md §4 C11"),
+    "C12": ("exploration",
+            "differential testing against a stepping loop written from the statement: proptest-generated runs in-process (RunnerConfig::run / verify, whole-machine equality) and at process level (the real binary's stdout lines and exit status)",
+            "Generated runs (programs incl. the repository's test programs and unparsable texts, budgets from 0, interrupt/reset multisets with cycle 0, duplicates, beyond-the-end and same-cycle entries, every configuration value the CLI accepts, numbers in dec/0x/0b, expectation subsets with matching and mismatching values): run() must return a machine equal to 'new + load + 13 setters, then per cycle interrupt, reset, one clock edge, stop after N or at the first non-Running cycle' and the number of edges issued; verify() must succeed exactly when every stated expectation matches; the spawned 2a-emulator binary must print the same Cycles/State/FE/FF values and exit non-zero exactly when the file is missing, the program unparsable or an expectation fails.",
+            "Trusted: the reference loop in harness/src/props/c12.rs. Process-level runs use a debug build of /repo's binary (hooks off) with NO_COLOR=1 and a private TMPDIR; the Time: line is ignored. C06 crash shapes are not generated.",
+            "DESIGN.md §4 C12"),
     "C13": ("exploration",
             "robustness property testing (no panic / overflow under catch_unwind with debug assertions), proptest-generated stimulus scripts over template-built and random RAM images; libFuzzer target fz_machine in the thorough tier",
             "Scripts of up to 120 calls (clock edges in both step modes, key interrupt, continue, cpu/master reset, load, input and board setters with arbitrary f32 bit patterns incl. NaN/inf/subnormal, direct Bus::read/write on all addresses, direct Board calls, limit setters) run on machines loaded with I/O-biased, uniform or mixed images under all stack sizes and program-size settings; every call is wrapped in catch_unwind in a build with overflow checks and debug assertions, every public getter is read after every call, and the machine is stepped once more at the end.",
